@@ -116,3 +116,320 @@ func ZZ_C16_TimeAccept() {
 		zz.Assert(zz.And(t.Minute() >= 0, t.Minute() <= 59), "time-minute-range")
 	}
 }
+
+// symTime builds an arbitrary valid Time value (hour, minute, shift, clock flag symbolic).
+func symTime(prefix string) (Time, int, bool) {
+	h := zz.IntRange(prefix+"h", 0, 23)
+	m := zz.IntRange(prefix+"m", 0, 59)
+	sh := zz.IntRange(prefix+"shift", -1, 1)
+	is24 := zz.Bool(prefix + "is24")
+	t, err := newTime(h, m, sh, TimeFormat{Use24HourClock: is24})
+	zz.Assert(err == nil, "newTime-accepts-valid")
+	return t, sh*1440 + h*60 + m, is24
+}
+
+// ZZ_C16_TimeRoundtrip: ToString / NewTimeFromString is the identity on values and notation.
+func ZZ_C16_TimeRoundtrip() {
+	t, off, is24 := symTime("t")
+	zz.Assert(t.MidnightOffset().InMinutes() == off, "time-offset-denotation")
+	s := t.ToString()
+	zz.Observe("text", s)
+	t2, err := NewTimeFromString(s)
+	zz.Assert(err == nil, "time-roundtrip-accepts")
+	if err != nil {
+		return
+	}
+	zz.Assert(t2.MidnightOffset().InMinutes() == off, "time-roundtrip-value")
+	zz.Assert(zz.Iff(t2.Format().Use24HourClock, is24), "time-roundtrip-notation")
+	zz.Assert(t2.IsEqualTo(t), "time-roundtrip-equal")
+	zz.Assert(t2.ToString() == s, "time-print-fixed-point")
+	// the other notation denotes the same value
+	t3, err3 := NewTimeFromString(t.ToStringWithFormat(TimeFormat{Use24HourClock: !is24}))
+	zz.Assert(err3 == nil, "time-other-notation-accepts")
+	if err3 == nil {
+		zz.Assert(t3.MidnightOffset().InMinutes() == off, "time-other-notation-value")
+	}
+}
+
+// ZZ_C16_TimePlus: Plus yields the time d minutes later iff that lies within
+// [start of previous day, end of next day), otherwise an error.
+func ZZ_C16_TimePlus() {
+	t, off, is24 := symTime("t")
+	d := zz.IntRange("d", -3000, 3000)
+	r, err := t.Plus(NewDuration(0, d))
+	sum := off + d
+	representable := zz.And(sum >= -1440, sum < 2880)
+	zz.Observe("ok", err == nil)
+	zz.Assert(zz.Iff(err == nil, representable), "plus-error-iff-unrepresentable")
+	if err == nil {
+		zz.Assert(r.MidnightOffset().InMinutes() == sum, "plus-value")
+		zz.Assert(zz.Iff(r.Format().Use24HourClock, is24), "plus-keeps-notation")
+		zz.Assert(zz.And(r.Minute() >= 0, r.Minute() <= 59), "plus-minute-range")
+		zz.Assert(zz.And(r.Hour() >= 0, r.Hour() <= 23), "plus-hour-range")
+	}
+}
+
+// ZZ_C16_Range: a range is valid iff end >= start, and lasts end-start minutes.
+func ZZ_C16_Range() {
+	a, offA, _ := symTime("a")
+	b, offB, _ := symTime("b")
+	r, err := NewRange(a, b)
+	zz.Assert(zz.Iff(err == nil, offB >= offA), "range-valid-iff-ordered")
+	zz.Assert(zz.Iff(b.IsAfterOrEqual(a), offB >= offA), "time-order")
+	zz.Assert(zz.Iff(a.IsEqualTo(b), offA == offB), "time-equality")
+	if err == nil {
+		zz.Assert(r.Duration().InMinutes() == offB-offA, "range-duration")
+	}
+}
+
+// The literal equivalences the specification names explicitly.
+func ZZ_C16_Equivalences() {
+	eq := func(x, y string, id string) {
+		a, e1 := NewTimeFromString(x)
+		b, e2 := NewTimeFromString(y)
+		zz.Assert(zz.And(e1 == nil, e2 == nil), id+"-accepted")
+		if e1 == nil && e2 == nil {
+			zz.Assert(a.IsEqualTo(b), id)
+			zz.Assert(a.ToString() == b.ToString(), id+"-canonical")
+		}
+	}
+	eq("24:00", "0:00>", "eq-24:00")
+	eq("<24:00", "0:00", "eq-<24:00")
+	// 12:00am is midnight, 12:00pm is noon (same values as the 24-hour literals)
+	a, e1 := NewTimeFromString("12:00am")
+	b, e2 := NewTimeFromString("0:00")
+	c, e3 := NewTimeFromString("12:00pm")
+	d, e4 := NewTimeFromString("12:00")
+	zz.Assert(e1 == nil && e2 == nil && e3 == nil && e4 == nil, "eq-12h-accepted")
+	zz.Assert(a.IsEqualTo(b), "eq-12:00am")
+	zz.Assert(c.IsEqualTo(d), "eq-12:00pm")
+	d90, e5 := NewDurationFromString("90m")
+	d130, e6 := NewDurationFromString("1h30m")
+	zz.Assert(e5 == nil && e6 == nil, "eq-90m-accepted")
+	zz.Assert(d90.InMinutes() == d130.InMinutes(), "eq-90m")
+	zz.Assert(d90.ToString() == d130.ToString(), "eq-90m-canonical")
+}
+
+// ---------------------------------------------------------------------------
+// Durations
+// ---------------------------------------------------------------------------
+
+// refDuration: [+-]? (D+ h)? (D+ m)? with at least one part; minutes < 60 when hours present.
+func refDuration(s string) (ok bool, mins int, plus bool, neg bool) {
+	n := len(s)
+	ok = false
+	mins = 0
+	plus = false
+	neg = false
+	for sg := 0; sg <= 1; sg++ {
+		for hd := 0; hd <= n; hd++ {
+			for md := 0; md <= n; md++ {
+				l := sg
+				if hd > 0 {
+					l += hd + 1
+				}
+				if md > 0 {
+					l += md + 1
+				}
+				if l != n || (hd == 0 && md == 0) {
+					continue
+				}
+				c := true
+				p := 0
+				isPlus, isNeg := false, false
+				if sg == 1 {
+					isPlus = s[0] == '+'
+					isNeg = s[0] == '-'
+					c = zz.And(c, zz.Or(isPlus, isNeg))
+					p = 1
+				}
+				h := 0
+				for i := 0; i < hd; i++ {
+					c = zz.And(c, isDigit(s[p]))
+					h = h*10 + int(s[p]-'0')
+					p++
+				}
+				if hd > 0 {
+					c = zz.And(c, s[p] == 'h')
+					p++
+				}
+				m := 0
+				for i := 0; i < md; i++ {
+					c = zz.And(c, isDigit(s[p]))
+					m = m*10 + int(s[p]-'0')
+					p++
+				}
+				if md > 0 {
+					c = zz.And(c, s[p] == 'm')
+					p++
+				}
+				if hd > 0 {
+					c = zz.And(c, m <= 59)
+				}
+				v := h*60 + m
+				v = zz.IteInt(isNeg, -v, v)
+				mins = zz.IteInt(c, v, mins)
+				plus = zz.Or(zz.And(c, isPlus), zz.And(zz.Not(c), plus))
+				neg = zz.Or(zz.And(c, isNeg), zz.And(zz.Not(c), neg))
+				ok = zz.Or(ok, c)
+			}
+		}
+	}
+	return
+}
+
+// ZZ_C16_DurationAccept: every string of length n is accepted iff it is a
+// duration literal of the specification, with the denoted signed value.
+func ZZ_C16_DurationAccept() {
+	n := zz.Param("n")
+	s := zz.String("s", n)
+	var d Duration
+	var err error
+	panicked := zz.Panics(func() { d, err = NewDurationFromString(s) })
+	zz.Assert(!panicked, "duration-parse-no-panic")
+	if panicked {
+		return
+	}
+	rok, rmins, rplus, rneg := refDuration(s)
+	zz.Observe("accepted", err == nil)
+	zz.Assert(zz.Iff(err == nil, rok), "duration-accept-iff-spec")
+	if err == nil {
+		zz.Observe("mins", d.InMinutes())
+		zz.Assert(d.InMinutes() == rmins, "duration-value")
+		// notation: explicit plus is remembered; the sign of a zero value is remembered
+		out := d.ToString()
+		d2, err2 := NewDurationFromString(out)
+		zz.Assert(err2 == nil, "duration-print-reparses")
+		if err2 == nil {
+			zz.Assert(d2.InMinutes() == rmins, "duration-roundtrip-value")
+			zz.Assert(d2.ToString() == out, "duration-print-fixed-point")
+		}
+		zz.Assert(zz.Implies(zz.And(rplus, rmins > 0), out[0] == '+'), "duration-keeps-plus")
+		zz.Assert(zz.Implies(rneg, zz.Or(rmins == 0, out[0] == '-')), "duration-neg-sign")
+	}
+}
+
+// ZZ_C16_DurationRoundtrip: for every value and notation, parse(print(d)) == d, canonical text.
+func ZZ_C16_DurationRoundtrip() {
+	mins := zz.IntRange("mins", -100000, 100000)
+	forcePlus := zz.Bool("forcePlus")
+	zs := zz.IntRange("zeroSign", -1, 1)
+	d := NewDurationWithFormat(0, mins, DurationFormat{ForcePlus: forcePlus, ZeroSign: zs})
+	s := d.ToString()
+	zz.Observe("text", s)
+	d2, err := NewDurationFromString(s)
+	zz.Assert(err == nil, "duration-roundtrip-accepts")
+	if err != nil {
+		return
+	}
+	zz.Assert(d2.InMinutes() == mins, "duration-roundtrip-value")
+	zz.Assert(d2.ToString() == s, "duration-print-fixed-point")
+}
+
+// ZZ_C16_DurationArith: Plus/Minus are exact; hours/minutes split denotes h*60+m.
+func ZZ_C16_DurationArith() {
+	mins := zz.IntRange("mins", -1000000000, 1000000000)
+	other := zz.IntRange("other", -1000000000, 1000000000)
+	d := NewDuration(0, mins)
+	zz.Assert(d.Plus(NewDuration(0, other)).InMinutes() == mins+other, "duration-plus")
+	zz.Assert(d.Minus(NewDuration(0, other)).InMinutes() == mins-other, "duration-minus")
+	hh := zz.IntRange("hh", -100000, 100000)
+	mm := zz.IntRange("mm", -59, 59)
+	zz.Assert(NewDuration(hh, mm).InMinutes() == hh*60+mm, "duration-hm-value")
+}
+
+// ZZ_C16_DurationCanonical: `90m`-style and `1h30m`-style spellings print identically.
+func ZZ_C16_DurationCanonical() {
+	hh := zz.IntRange("hh", 0, 200)
+	mm := zz.IntRange("mm", 0, 59)
+	a := NewDuration(hh, mm)
+	b := NewDuration(0, hh*60+mm)
+	zz.Assert(a.InMinutes() == b.InMinutes(), "duration-hm-equivalence")
+	zz.Assert(a.ToString() == b.ToString(), "duration-hm-canonical")
+}
+
+// ---------------------------------------------------------------------------
+// Dates
+// ---------------------------------------------------------------------------
+
+// refDaysIn: days of month m (1..12) in year y, proleptic Gregorian.
+func refDaysIn(y, m int) int {
+	leap := zz.And(y%4 == 0, zz.Or(y%100 != 0, y%400 == 0))
+	d := 31
+	d = zz.IteInt(zz.Or(zz.Or(m == 4, m == 6), zz.Or(m == 9, m == 11)), 30, d)
+	d = zz.IteInt(m == 2, zz.IteInt(leap, 29, 28), d)
+	return d
+}
+
+// refDate: YYYY-MM-DD or YYYY/MM/DD with equal separators, Gregorian-valid.
+func refDate(s string) (ok bool, y, m, d int, dashes bool) {
+	if len(s) != 10 {
+		return false, 0, 0, 0, false
+	}
+	c := true
+	for _, i := range []int{0, 1, 2, 3, 5, 6, 8, 9} {
+		c = zz.And(c, isDigit(s[i]))
+	}
+	dg := func(i int) int { return int(s[i] - '0') }
+	y = dg(0)*1000 + dg(1)*100 + dg(2)*10 + dg(3)
+	m = dg(5)*10 + dg(6)
+	d = dg(8)*10 + dg(9)
+	bothDash := zz.And(s[4] == '-', s[7] == '-')
+	bothSlash := zz.And(s[4] == '/', s[7] == '/')
+	c = zz.And(c, zz.Or(bothDash, bothSlash))
+	c = zz.And(c, zz.And(m >= 1, m <= 12))
+	c = zz.And(c, zz.And(d >= 1, d <= refDaysIn(y, m)))
+	return c, y, m, d, bothDash
+}
+
+// ZZ_C16_DateAccept: every string of length n (years restricted to one century
+// window when n == 10) is accepted iff it is a date literal denoting a
+// Gregorian date; fields and separator notation as denoted.
+func ZZ_C16_DateAccept() {
+	n := zz.Param("n")
+	s := zz.String("s", n)
+	if n == 10 {
+		c := zz.Param("century")
+		zz.Assume(s[0] == byte('0'+c/10))
+		zz.Assume(s[1] == byte('0'+c%10))
+	}
+	dt, err := NewDateFromString(s)
+	rok, ry, rm, rd, rdash := refDate(s)
+	zz.Observe("accepted", err == nil)
+	zz.Assert(zz.Iff(err == nil, rok), "date-accept-iff-spec")
+	if err == nil {
+		zz.Assert(dt.Year() == ry, "date-year")
+		zz.Assert(dt.Month() == rm, "date-month")
+		zz.Assert(dt.Day() == rd, "date-day")
+		zz.Assert(zz.Iff(dt.Format().UseDashes, rdash), "date-separator-notation")
+		out := dt.ToString()
+		zz.Observe("text", out)
+		zz.Assert(out == s, "date-print-identity")
+	}
+}
+
+// ZZ_C16_DateRoundtrip: NewDate accepts exactly Gregorian dates of years 0..9999
+// (window-restricted), and print/parse is the identity in both notations.
+func ZZ_C16_DateRoundtrip() {
+	c := zz.Param("century")
+	y := zz.IntRange("y", c*100, c*100+99)
+	m := zz.IntRange("m", 0, 13)
+	d := zz.IntRange("d", 0, 32)
+	dashes := zz.Bool("dashes")
+	dt, err := NewDate(y, m, d)
+	valid := zz.And(zz.And(m >= 1, m <= 12), zz.And(d >= 1, d <= refDaysIn(y, m)))
+	zz.Assert(zz.Iff(err == nil, valid), "newdate-accept-iff-gregorian")
+	if err != nil {
+		return
+	}
+	s := dt.ToStringWithFormat(DateFormat{UseDashes: dashes})
+	zz.Observe("text", s)
+	dt2, err2 := NewDateFromString(s)
+	zz.Assert(err2 == nil, "date-roundtrip-accepts")
+	if err2 != nil {
+		return
+	}
+	zz.Assert(zz.And(dt2.Year() == y, zz.And(dt2.Month() == m, dt2.Day() == d)), "date-roundtrip-value")
+	zz.Assert(zz.Iff(dt2.Format().UseDashes, dashes), "date-roundtrip-notation")
+	zz.Assert(dt2.IsEqualTo(dt), "date-roundtrip-equal")
+}
